@@ -8,6 +8,8 @@ DRIVER = os.path.join(ROOT, "lean", ".lake", "build", "bin", "driver")
 
 
 def hx_path(profile):
+    if profile == "asan":
+        return os.path.join(CACHE, "target_asan", "x86_64-unknown-linux-gnu", "release", "hx")
     return os.path.join(CACHE, "target", profile, "hx")
 
 
@@ -72,6 +74,8 @@ def run_impl(histories, profile="debug", snap=False, timeout=600, exe=None, env=
         inp = format_histories(todo)
         args = [exe] + (["--snap"] if snap else [])
         try:
+            if profile == "asan" and env is None:
+                env = dict(os.environ, ASAN_OPTIONS="detect_leaks=0:abort_on_error=1")
             p = subprocess.run(args, input=inp, capture_output=True, text=True, timeout=timeout, env=env)
             rc = p.returncode
             stdout = p.stdout
